@@ -32,12 +32,27 @@ SEC_REASONS = (12, 13, 14, 15, 16)
 ENV_LIMITED = ('mac-kw', 'sign1-x5t')
 
 
+# shape of the bundle to protect (set per scenario): payload length classes, no report
+# requests, other block order / numbering
+VARIANT = 'base'
+VARIANTS = ('base', 'empty-payload', 'long-payload', 'no-reports', 'renumbered')
+
+
 def plain_bundle(crc=0):
     pri = dict(flags=B.FLAG_REQ_DELETION | B.FLAG_REQ_DELIVERY, crc_type=crc, dest='dtn://node/app', src=SRC + 'app',
                report_to='dtn://rpt/', ts=(760000000000, 3), lifetime=86400000)
+    payload = b'integrity-protected payload'
+    if VARIANT == 'empty-payload':
+        payload = b''
+    elif VARIANT == 'long-payload':
+        payload = bytes((i * 7 + 3) & 0xFF for i in range(300))
+    elif VARIANT == 'no-reports':
+        pri.update(flags=0, report_to='dtn:none')
     blocks = [dict(type=7, num=2, flags=0, crc_type=crc, data=B.enc_age(1234)),
               dict(type=193, num=3, flags=0, crc_type=0, data=b'other-block'),
-              dict(type=1, num=1, flags=0, crc_type=crc, data=b'integrity-protected payload')]
+              dict(type=1, num=1, flags=0, crc_type=crc, data=payload)]
+    if VARIANT == 'renumbered':
+        blocks = [dict(blocks[1], num=23), dict(blocks[0], num=24), blocks[2]]
     return dict(primary=pri, blocks=blocks)
 
 
@@ -234,15 +249,16 @@ def _bp_world_with_config(params, sign=False, include_chain=True, verify_ca=Fals
 
 def oracle_protect(scope_name):
     bundle = plain_bundle()
+    other = [b['num'] for b in bundle['blocks'] if b['type'] == 193][0]
     scopes = {
         'default': {0: 1, -1: 1},
         'with-secblk': {0: 1, -1: 1, -2: 1},
-        'other-metadata': {0: 1, -1: 1, 3: 1},
-        'other-btsd': {0: 1, -1: 1, 3: 3},
+        'other-metadata': {0: 1, -1: 1, other: 1},
+        'other-btsd': {0: 1, -1: 1, other: 3},
         'target-btsd-only': {-1: 2},
         'omitted-param': None,
     }
-    return B.encode(A.add_bib(bundle, [1], KEY, KID, SRC, scope=scopes[scope_name], num=4))
+    return B.encode(A.add_bib(bundle, [1], KEY, KID, SRC, scope=scopes[scope_name], num=(4 if other == 3 else 30)))
 
 
 # ---------------------------------------------------------------------------
@@ -408,6 +424,8 @@ def field_edits(orig):
 def run_source(params, known):
     from .. import env as _env
     _env.load_bp()
+    global VARIANT
+    VARIANT = params.get('variant', 'base')
     name = params['name']
     if params.get('pems'):
         set_pems(params['pems'])
@@ -577,10 +595,10 @@ def scenarios(tier):
     out.append(dict(name='sign1-wrong-certificate', kind='enum', runner='run_wrong_cert',
                     params=dict(name='sign1-wrong-certificate', pems=pems), weight=1))
 
-    def add(name, kind, targets=(1,), parts=1):
+    def add(name, kind, targets=(1,), parts=1, variant='base'):
         for part in range(parts):
             nm = '%s#%d/%d' % (name, part + 1, parts)
-            prm = dict(name=nm, kind=kind, targets=list(targets), part=part, parts=parts)
+            prm = dict(name=nm, kind=kind, targets=list(targets), part=part, parts=parts, variant=variant)
             if kind.startswith('sign1'):
                 prm['pems'] = pems
             out.append(dict(name=nm, kind='enum', runner='run_source', params=prm, weight=10))
@@ -591,6 +609,15 @@ def scenarios(tier):
     add('sign1-x5chain', 'sign1-x5chain', parts=6 if tier == 'thorough' else 4)
     for scope in ('default', 'with-secblk', 'other-metadata', 'other-btsd', 'target-btsd-only', 'omitted-param'):
         add('oracle-%s' % scope, 'oracle:%s' % scope)
+    if tier == 'thorough':
+        # the same alteration sets over other bundle shapes
+        for variant in VARIANTS[1:]:
+            big = 6 if variant == 'long-payload' else 2
+            add('mac0/%s' % variant, 'mac0', parts=big, variant=variant)
+            add('mac0+age/%s' % variant, 'mac0', targets=(1, 7), parts=big, variant=variant)
+            add('sign1-x5chain/%s' % variant, 'sign1-x5chain', parts=2 * big, variant=variant)
+            for scope in ('default', 'other-btsd', 'target-btsd-only'):
+                add('oracle-%s/%s' % (scope, variant), 'oracle:%s' % scope, parts=big // 2, variant=variant)
     return out
 
 
@@ -600,6 +627,7 @@ ASSUMPTIONS = [
     'wrong key, asymmetric case: valid signatures under four certificates that do not bind the key to the security source (other NODE-ID, no SAN, DNS SAN only, issuer not trusted)',
     'alterations inside the security block that leave the covered tuple unchanged (unprotected headers, structure) may go either way; removing the integrity block altogether is not detectable without policy and is not judged',
     'bundles without block CRCs so that alterations reach the security layer (CRC behaviour is C08)',
+    'thorough tier: the same alteration sets over four more bundle shapes (empty / 300-octet payload, no report requests, other block order and numbers)',
 ]
 
 RULE = ('every single-bit flip of each protected bundle plus 19 field-level edits, for six kinds of integrity block '
